@@ -33,6 +33,9 @@ type FakeRelay struct {
 	held    int
 	unhold  chan struct{}
 	down    bool // outage: every RPC and every operation on an open stream, CloseSend included, fails
+	// RefuseStreams: mailboxes can be created and deleted, but every request for a stream is refused
+	// (the relay, or a proxy in front of it, sheds streaming RPCs)
+	RefuseStreams bool
 }
 
 var errRelayDown = status.Error(codes.Unavailable, "relay unreachable")
@@ -291,6 +294,12 @@ func (r *FakeRelay) SendStream(ctx context.Context, _ ...grpc.CallOption) (hashm
 	if r.isDown() {
 		return nil, errRelayDown
 	}
+	r.mu.Lock()
+	refuse := r.RefuseStreams
+	r.mu.Unlock()
+	if refuse {
+		return nil, status.Error(codes.Unavailable, "stream refused")
+	}
 	return &fakeSendStream{fakeStream{ctx}, r}, nil
 }
 
@@ -390,6 +399,9 @@ func (r *FakeRelay) RecvStream(ctx context.Context, in *hashmailrpc.CipherBoxDes
 	defer r.mu.Unlock()
 	if r.down {
 		return nil, errRelayDown
+	}
+	if r.RefuseStreams {
+		return nil, status.Error(codes.Unavailable, "stream refused")
 	}
 	k := sidKey(in.StreamId)
 	s := &fakeRecvStream{fakeStream: fakeStream{ctx}, r: r, k: k}
